@@ -454,6 +454,9 @@ func (w *WEval) eval1(v ssa.Value) *Lay {
 	case *ssa.ChangeType:
 		return w.eval(x.X)
 	case *ssa.Convert:
+		if k, ok := x.X.(*ssa.Const); ok && k.Value != nil && k.Value.Kind() == constant.String {
+			return &Lay{K: "const", S: fmt.Sprintf("%x", constant.StringVal(k.Value))} // []byte("ord")
+		}
 		return &Lay{K: "raw", S: w.term(x.X)}
 	case *ssa.UnOp:
 		if x.Op == token.MUL {
